@@ -11,6 +11,7 @@ import (
 	"path/filepath"
 	"strconv"
 	"strings"
+	"sync"
 	"time"
 
 	"github.com/dapr/kit/crypto/spiffe"
@@ -19,15 +20,20 @@ import (
 // NStep is one environment action of a renewal scenario: advance the fake clock by D ns, or (D == 0)
 // switch the trust-anchor bundle to version Anch.
 // W: advance exactly to the deadline of the armed timer (no overshoot).
+// Ans: the issuer answers the outstanding request (only meaningful in a Hold scenario).
 type NStep struct {
 	D    int64 `json:"d,omitempty"`
 	Anch int   `json:"anch,omitempty"`
 	W    bool  `json:"w,omitempty"`
+	Ans  bool  `json:"ans,omitempty"`
 }
 
+// Hold: the issuer holds every request until an Ans step (a fetch takes time: the clock advances
+// while the request is in flight).  Without Hold every request is answered as soon as it is made.
 type NScenario struct {
 	Dir    bool    `json:"dir"`
 	Anch   int     `json:"anch"`
+	Hold   bool    `json:"hold,omitempty"`
 	Script []Item  `json:"script"`
 	Steps  []NStep `json:"steps"`
 }
@@ -55,10 +61,17 @@ type nOutcome struct {
 	// Overshoot[j]: how far step j ended beyond the deadline of the timer that was armed before it
 	// (capped by the step's length; 0 for a step that fired nothing or landed exactly).
 	Overshoot []time.Duration
-	InitErr   bool
-	Hang      string
-	Panic     string
-	RunRet    string
+	// Acts: the environment actions actually performed, in the model's vocabulary (a:<ns>, t:<v>, w,
+	// ans); Served/Pub/StepEnd have one entry for the start and one per act.
+	Acts     []string
+	InFlight []bool // a request was outstanding at that observation
+	NAns     []int  // number of requests answered before that observation
+	InitErr  bool
+	// HangInFlight: the GetX509SVID call that hung was made while a renewal request was outstanding
+	HangInFlight bool
+	Hang         string
+	Panic        string
+	RunRet       string
 }
 
 func readPub(target, when string, reqs []reqRec) pubObs {
@@ -132,14 +145,11 @@ func (o pubObs) String() string {
 }
 
 // runRenew executes one renewal scenario against the real package on the fake clock.
-func runRenew(sc NScenario, ca *fakeCA, workdir string, deadline time.Duration) (out nOutcome) {
-	defer func() {
-		if r := recover(); r != nil {
-			out.Panic = fmt.Sprint(r)
-		}
-	}()
+func runRenew(sc NScenario, ca *fakeCA, workdir string, deadline, callDeadline time.Duration) nOutcome {
+	// `out` is written by callbacks on other goroutines; the value returned is built at the end
+	var out nOutcome
 	clk := newVClock(T0)
-	is := &issuer{ca: ca, clk: clk, script: append([]Item(nil), sc.Script...)}
+	is := &issuer{ca: ca, clk: clk, script: append([]Item(nil), sc.Script...), gate: make(chan Item), reqCh: make(chan int, 64)}
 	ta := &fakeTA{is: is, version: sc.Anch}
 	opts := spiffe.Options{Log: quietLog, RequestSVIDFn: is.fn, TrustAnchors: ta}
 	var target string
@@ -148,7 +158,7 @@ func runRenew(sc NScenario, ca *fakeCA, workdir string, deadline time.Duration) 
 		opts.WriteIdentityToFile = &target
 		defer os.RemoveAll(workdir)
 	}
-	// a scripted dir.Write failure: while that fetch runs, the base directory is moved away and a
+	// a scripted dir.Write failure: when that fetch is answered, the base directory is moved away and a
 	// regular file takes its place (MkdirAll then fails); it is put back once the loop is quiet again
 	away := workdir + ".away"
 	blocked := false
@@ -161,15 +171,20 @@ func runRenew(sc NScenario, ca *fakeCA, workdir string, deadline time.Duration) 
 	}
 	defer restore()
 	defer os.RemoveAll(away)
+	var omu sync.Mutex
 	is.onReq = func(idx int) {
+		if sc.Dir {
+			p := readPub(target, "req"+strconv.Itoa(idx), is.requests())
+			omu.Lock()
+			out.PubAtReq = append(out.PubAtReq, p)
+			omu.Unlock()
+		}
+	}
+	is.onAnswer = func(idx int, kind string) {
 		is.mu.Lock()
 		is.reqs[idx].Anchors = func() int { ta.mu.Lock(); defer ta.mu.Unlock(); return ta.version }()
-		reqs := append([]reqRec(nil), is.reqs...)
 		is.mu.Unlock()
-		if sc.Dir {
-			out.PubAtReq = append(out.PubAtReq, readPub(target, "req"+strconv.Itoa(idx), reqs))
-		}
-		if sc.Dir && idx < len(sc.Script) && sc.Script[idx].Kind == kWriteErr {
+		if sc.Dir && kind == kWriteErr {
 			os.MkdirAll(workdir, 0o755)
 			if os.Rename(workdir, away) == nil && os.WriteFile(workdir, []byte("not a directory"), 0o644) == nil {
 				blocked = true
@@ -192,14 +207,35 @@ func runRenew(sc NScenario, ca *fakeCA, workdir string, deadline time.Duration) 
 	}()
 
 	returned := false
-	// quiesce: the rotation goroutine has armed a timer that lies in the future, or Run returned.
+	nAnswered := 0
+	outstanding := false // a request has been announced and not answered yet
+	// quiesce: the rotation goroutine has armed a timer that lies in the future, or is blocked in the
+	// issuer, or Run returned.
 	quiesce := func() bool {
 		dl := time.Now().Add(deadline)
 		for time.Now().Before(dl) {
-			if clk.Pending() > 0 {
+			if outstanding || returned {
 				return true
 			}
 			select {
+			case <-is.reqCh:
+				outstanding = true
+				return true
+			default:
+			}
+			if clk.Pending() > 0 {
+				// a timer is armed; a request announced in the meantime would be seen next time
+				select {
+				case <-is.reqCh:
+					outstanding = true
+				default:
+				}
+				return true
+			}
+			select {
+			case <-is.reqCh:
+				outstanding = true
+				return true
 			case err := <-runDone:
 				returned = true
 				if err != nil {
@@ -217,107 +253,164 @@ func runRenew(sc NScenario, ca *fakeCA, workdir string, deadline time.Duration) 
 		}
 		return false
 	}
-	observe := func(j int) {
-		restore()
+	observe := func(label string) {
+		if !outstanding {
+			restore()
+		}
 		type res struct {
 			tok string
 			ok  bool
 		}
 		ch := make(chan res, 1)
-		go func() {
-			defer func() {
-				if r := recover(); r != nil {
-					ch <- res{"panic", false}
+		if len(is.requests()) <= 1 && outstanding && !sc.Hold {
+			// the initial request is about to be answered: GetX509SVID legitimately waits for it
+			ch <- res{"none", true}
+		} else {
+			go func() {
+				defer func() {
+					if r := recover(); r != nil {
+						ch <- res{"panic", false}
+					}
+				}()
+				svid, err := src.GetX509SVID()
+				if err != nil || svid == nil || len(svid.Certificates) == 0 {
+					ch <- res{"none", true}
+					return
 				}
+				tok := int(svid.Certificates[0].SerialNumber.Int64() - 1000)
+				ok := false
+				if pk, isEC := svid.PrivateKey.(*ecdsa.PrivateKey); isEC {
+					der, _ := x509.MarshalPKIXPublicKey(&pk.PublicKey)
+					cder, _ := x509.MarshalPKIXPublicKey(svid.Certificates[0].PublicKey)
+					rq := is.requests()
+					ok = bytes.Equal(der, cder) && tok >= 0 && tok < len(rq) && bytes.Equal(rq[tok].PubDER, der)
+				}
+				ch <- res{strconv.Itoa(tok), ok}
 			}()
-			svid, err := src.GetX509SVID()
-			if err != nil || svid == nil || len(svid.Certificates) == 0 {
-				ch <- res{"none", true}
-				return
-			}
-			tok := int(svid.Certificates[0].SerialNumber.Int64() - 1000)
-			ok := false
-			if pk, isEC := svid.PrivateKey.(*ecdsa.PrivateKey); isEC {
-				der, _ := x509.MarshalPKIXPublicKey(&pk.PublicKey)
-				cder, _ := x509.MarshalPKIXPublicKey(svid.Certificates[0].PublicKey)
-				rq := is.requests()
-				ok = bytes.Equal(der, cder) && tok >= 0 && tok < len(rq) && bytes.Equal(rq[tok].PubDER, der)
-			}
-			ch <- res{strconv.Itoa(tok), ok}
-		}()
+		}
+		initial := len(is.requests()) <= 1 && outstanding // GetX509SVID legitimately waits for the initial fetch
 		select {
 		case r := <-ch:
 			out.Served = append(out.Served, r.tok)
 			out.ServedOK = append(out.ServedOK, r.ok)
-		case <-time.After(deadline):
-			out.Served = append(out.Served, "hang")
-			out.ServedOK = append(out.ServedOK, false)
-			out.Hang = "GetX509SVID did not return after step " + strconv.Itoa(j)
+		case <-time.After(func() time.Duration {
+			if initial {
+				return 30 * time.Millisecond
+			}
+			return callDeadline // a GetX509SVID call that takes this long is reported as blocked
+		}()):
+			if initial {
+				out.Served = append(out.Served, "none")
+				out.ServedOK = append(out.ServedOK, true)
+			} else {
+				out.Served = append(out.Served, "hang")
+				out.ServedOK = append(out.ServedOK, false)
+				out.Hang = "GetX509SVID did not return after " + label
+				if outstanding {
+					out.HangInFlight = true
+				}
+			}
 		}
 		if sc.Dir {
-			out.Pub = append(out.Pub, readPub(target, "step"+strconv.Itoa(j), is.requests()))
+			out.Pub = append(out.Pub, readPub(target, label, is.requests()))
 		}
 		out.StepEnd = append(out.StepEnd, clk.Now())
+		out.InFlight = append(out.InFlight, outstanding)
+		out.NAns = append(out.NAns, nAnswered)
+	}
+	answerNow := func() {
+		outstanding = false
+		nAnswered++
+		is.gate <- Item{} // next item of the script
+		if !quiesce() {
+			out.Hang = "the rotation loop neither armed a timer nor issued a request after an answer"
+		}
+		out.Acts = append(out.Acts, "ans")
+		out.Overshoot = append(out.Overshoot, 0)
+		observe("ans" + strconv.Itoa(len(out.Acts)))
+	}
+	autoAnswer := func() {
+		for !sc.Hold && outstanding && out.Hang == "" && len(out.Acts) < 400 {
+			answerNow()
+		}
 	}
 
 	if !quiesce() {
-		out.Hang = "Run neither returned nor armed a timer after the initial fetch"
+		out.Hang = "Run neither returned nor issued its initial request"
 	}
-	out.InitErr = returned
-	observe(0)
+	observe("start")
+	autoAnswer()
 	for j, st := range sc.Steps {
 		if out.Hang != "" {
 			break
 		}
-		d := time.Duration(st.D)
-		dl, armed := clk.NextDeadline()
-		if st.W {
-			d = 0
-			if armed && !returned {
-				d = dl.Sub(clk.Now())
+		label := "step" + strconv.Itoa(j+1)
+		switch {
+		case st.Ans:
+			if outstanding {
+				answerNow()
 			}
-		}
-		over := time.Duration(0)
-		if armed && d > 0 {
-			if o := clk.Now().Add(d).Sub(dl); o > 0 {
-				over = o
-			}
-			if over > d {
-				over = d
-			}
-		}
-		out.Overshoot = append(out.Overshoot, over)
-		if !st.W && st.D == 0 {
+			continue
+		case !st.W && st.D == 0:
 			ta.set(st.Anch)
-		} else if d <= 0 {
-			// nothing armed: the clock stays
-		} else if !returned {
-			if fired := clk.Step(d); fired > 0 {
-				if !quiesce() {
-					out.Hang = "rotation loop did not arm its next timer after step " + strconv.Itoa(j+1)
+			out.Acts = append(out.Acts, "t:"+strconv.Itoa(st.Anch))
+			out.Overshoot = append(out.Overshoot, 0)
+		default:
+			d := time.Duration(st.D)
+			dl, armed := clk.NextDeadline()
+			if st.W {
+				d = 0
+				if armed && !returned && !outstanding {
+					d = dl.Sub(clk.Now())
+				}
+				out.Acts = append(out.Acts, "w")
+			} else {
+				out.Acts = append(out.Acts, "a:"+strconv.FormatInt(st.D, 10))
+			}
+			over := time.Duration(0)
+			if armed && d > 0 {
+				if o := clk.Now().Add(d).Sub(dl); o > 0 {
+					over = o
+				}
+				if over > d {
+					over = d
 				}
 			}
-		} else {
-			clk.Step(d)
+			out.Overshoot = append(out.Overshoot, over)
+			if d > 0 {
+				fired := clk.Step(d)
+				if fired > 0 && !returned {
+					if !quiesce() {
+						out.Hang = "rotation loop did not arm its next timer after " + label
+					}
+				}
+			}
 		}
-		observe(j + 1)
+		observe(label)
+		autoAnswer()
 	}
+	// clean-up: cancel; an outstanding request returns through ctx.Done
+	omu.Lock()
+	res := out
+	res.PubAtReq = append([]pubObs(nil), out.PubAtReq...)
+	omu.Unlock()
+	res.InitErr = returned && len(is.requests()) <= 1
+	res.Reqs = is.requests()
+	res.Timers = clk.ArmedLog()
 	cancel()
 	if !returned {
 		select {
 		case err := <-runDone:
-			if err != nil {
-				out.RunRet = "err"
+			if err != nil && !outstanding {
+				res.RunRet = "err"
 			} else {
-				out.RunRet = "nil"
+				res.RunRet = "nil"
 			}
 		case <-time.After(deadline):
-			out.RunRet = "pending"
+			res.RunRet = "pending"
 		}
 	}
-	out.Reqs = is.requests()
-	out.Timers = clk.ArmedLog()
-	return out
+	return res
 }
 
 func rel(t time.Time) int64 { return t.Sub(T0).Nanoseconds() }
@@ -331,11 +424,15 @@ func (sc NScenario) good(r reqRec) bool {
 func implLine(sc NScenario, o nOutcome) string {
 	var reqs, timers, pub []string
 	for _, r := range o.Reqs {
+		if r.Answered.IsZero() {
+			reqs = append(reqs, fmt.Sprintf("%d:p", rel(r.Stamp)))
+			continue
+		}
 		g := "0"
 		if sc.good(r) {
 			g = "1"
 		}
-		reqs = append(reqs, fmt.Sprintf("%d:%s", rel(r.Stamp), g))
+		reqs = append(reqs, fmt.Sprintf("%d:%s:%d", rel(r.Stamp), g, rel(r.Answered)))
 	}
 	for _, t := range o.Timers {
 		timers = append(timers, fmt.Sprintf("%d:%d", rel(t.At), int64(t.D)))
@@ -352,9 +449,9 @@ func implLine(sc NScenario, o nOutcome) string {
 }
 
 // modelLine is the request for the model driver: the script carries the validity windows the fake
-// issuer really signed (absolute, ns from T0).
+// issuer really signed (absolute, ns from T0); the steps are the actions actually performed.
 func modelLine(sc NScenario, o nOutcome) string {
-	var script, steps []string
+	var script []string
 	for i, it := range sc.Script {
 		nb, na := it.A, it.B
 		if i < len(o.Reqs) && !o.Reqs[i].NB.IsZero() {
@@ -369,18 +466,9 @@ func modelLine(sc NScenario, o nOutcome) string {
 			script = append(script, "f")
 		}
 	}
-	for _, st := range sc.Steps {
-		if st.W {
-			steps = append(steps, "w")
-		} else if st.D == 0 {
-			steps = append(steps, "t:"+strconv.Itoa(st.Anch))
-		} else {
-			steps = append(steps, "a:"+strconv.FormatInt(st.D, 10))
-		}
-	}
 	d := "0"
 	if sc.Dir {
 		d = "1"
 	}
-	return fmt.Sprintf("renew dir=%s anch=%d t0=0 script=%s steps=%s", d, sc.Anch, strings.Join(script, ","), strings.Join(steps, ","))
+	return fmt.Sprintf("renew dir=%s anch=%d t0=0 script=%s steps=%s", d, sc.Anch, strings.Join(script, ","), strings.Join(o.Acts, ","))
 }
